@@ -272,7 +272,10 @@ package graphql
 //@ func Parse
 //@   keeps map[string]*Fragment, map[string]*ast.FragmentDefinition
 //@   call mapupdate assert fresh(arg0)                       // C18: Parse only writes maps it allocated - never the caller's variables
-//@   call valueToJson assert vars[name] == nil && arg1 == nil   // C18: a variable's default is evaluated only when no non-null value was supplied
+//@   call valueToJson assert vars[name] == nil && arg1 == nil && nbound == 0   // C18: a variable's default is evaluated only when no non-null value was supplied - and before any selection set (operation or fragment definition) is bound to the variables
+//@   ghost nbound int
+//@   entry ghost nbound = 0
+//@   call parseSelectionSet ghost nbound = nbound + 1
 //@   call parseSelectionSet assert defaultedVars != nil ==> arg2 == defaultedVars      // C18 / C19: fragment definitions and the operation are both bound with the variables after defaulting
 //@   loop 2 invariant (defaultedVars == nil || fresh(defaultedVars)) && (forall k string :: vars[k] == old(vars[k]))
 // ... and is used whenever none was: every nullable variable seen so far that has a default and no non-null value got its default stored
